@@ -46,7 +46,8 @@ class OpRes:
             layer = (rect, lp)
         clip = " ".join(t[i:i + 6])
         idle = t[-1] == "idle"
-        return dict(surface=surf, layer=layer, clip=clip, idle=idle)
+        ctm = tuple(t[i + 7:i + 13]) if len(t) > i + 12 and t[i + 6] == "T" else None
+        return dict(surface=surf, layer=layer, clip=clip, idle=idle, ctm=ctm)
 
 
 class SceneRun:
@@ -99,7 +100,7 @@ def op_kind(opstr):
     return opstr.split()[0]
 
 
-DRAW_KINDS = ("fill", "stroke", "fillrect", "clear", "mask", "drawimage", "drawimagesize", "poplayer")
+DRAW_KINDS = ("fill", "tfill", "stroke", "fillrect", "clear", "mask", "drawimage", "drawimagesize", "poplayer")
 
 
 def dest_pixels(parsed):
